@@ -140,6 +140,12 @@ def _aggregate(res: FuncResult, jobs, verdicts):
             ob.verdict = "failed"
             k, v = next((k, v) for k, v in vs if v[0] == "sat")
             ob.model, ob.solver, ob.smt2 = v[3], v[1], smt[k]
+        elif any(v[0] == "sat-candidate" for _, v in vs):
+            # a model of an *approximation* of the query (unbounded quantifiers instantiated at the ground terms):
+            # a candidate counterexample; it becomes a failure only if the replay on the real code confirms it
+            ob.verdict = "candidate"
+            k, v = next((k, v) for k, v in vs if v[0] == "sat-candidate")
+            ob.model, ob.solver, ob.smt2 = v[3], v[1], smt[k]
         elif all(v[0] == "unsat" for _, v in vs):
             ob.verdict = "discharged"
             ob.solver = ",".join(sorted({v[1] for _, v in vs})) or "trivial"
